@@ -16,6 +16,7 @@ import (
 	"github.com/deepteams/webp"
 	"github.com/deepteams/webp/verifharness/core"
 	"github.com/deepteams/webp/verifharness/gen"
+	"pgregory.net/rapid"
 )
 
 func TestMain(m *testing.M) {
@@ -107,4 +108,40 @@ func minInt(a, b int) int {
 		return a
 	}
 	return b
+}
+
+// steerSkipHeavy turns a lossy case into a "mostly skipped" one: 97..1200 macroblocks (thin, or squarish), flat ground
+// with at most a few textured patches, very low quality. Nearly every macroblock is then coded as skipped, the skip and
+// segment-tree probabilities round to their extremes, and the encoder's mid-frame probability refreshes (every
+// max(96, N/8) macroblocks) see no new statistics after the first few macroblocks.
+func steerSkipHeavy(t *rapid.T, im *gen.Img, o *gen.Opts) {
+	mbs := rapid.IntRange(97, 1200).Draw(t, "skipMBs")
+	var mbw, mbh int
+	switch rapid.IntRange(0, 4).Draw(t, "skipShape") {
+	case 0, 1: // 1-3 macroblock rows: the serial encoder for every Method
+		mbh = rapid.IntRange(1, 3).Draw(t, "skipRows")
+		mbw = minInt((mbs+mbh-1)/mbh, 1023)
+	case 2: // 1-3 macroblock columns
+		mbw = rapid.IntRange(1, 3).Draw(t, "skipCols")
+		mbh = minInt((mbs+mbw-1)/mbw, 1023)
+	default:
+		mbw = rapid.IntRange(4, 40).Draw(t, "skipMBW")
+		mbh = (mbs + mbw - 1) / mbw
+	}
+	im.W = mbw*16 - rapid.IntRange(0, 15).Draw(t, "skipWrem")
+	im.H = mbh*16 - rapid.IntRange(0, 15).Draw(t, "skipHrem")
+	im.Content = rapid.SampledFrom([]string{"flat", "flat", "patches", "patches", "patches", "patches", "letterbox", "sparse"}).Draw(t, "skipContent")
+	if im.Kind != "nrgba" && im.Kind != "rgba" && im.Kind != "generic" {
+		im.Kind = "nrgba"
+	}
+	if im.W*im.H > 40000 && im.Kind == "generic" {
+		im.Kind = "nrgba"
+	}
+	im.Pix = gen.RenderContent(im.W, im.H, im.Content, im.Alpha, rapid.Uint64().Draw(t, "skipSeed"))
+	o.Lossless = false
+	o.SetQuality(float32(rapid.SampledFrom([]int{0, 0, 1, 2, 2, 3, 3, 5, 8, 12}).Draw(t, "skipQ")))
+	if !rapid.Bool().Draw(t, "skipKeepTarget") {
+		o.TargetSize, o.TargetPSNRBits = 0, 0
+	}
+	im.Recount()
 }
